@@ -44,8 +44,8 @@ func init() {
 			}
 			for _, mc := range c.msgCases([]int{0, 2}, false, false) {
 				mc := mc
-				if mc.Key > 0 {
-					continue // wide values per key are exercised by C02/C06; here one key per type
+				if mc.Key > 0 && !c.thorough() {
+					continue // quick tier: wide values per key are exercised by C02/C06; here one key per type
 				}
 				items = append(items, Item{ID: "wide:" + mc.ID(), Run: func(c *Ctx) { c17variant(c, mc, "wide", -1) }})
 				if mc.N == 0 {
